@@ -30,6 +30,8 @@ package lnwallet
 
 import (
 	"bytes"
+	"encoding/binary"
+	"encoding/hex"
 	"errors"
 	"fmt"
 	"os"
@@ -71,6 +73,12 @@ type vpuCtx struct {
 	samples    []map[string]any
 	maxSamples int
 	noAmt      bool
+
+	// C05_htlc_sig_index: views of signed commitments (signer / verifier side)
+	views    map[string]*vpuSortObs
+	viewKeys []string
+	dupMode  bool
+	nDupAdds int
 }
 
 func vpuErr(err error) string {
@@ -1031,7 +1039,9 @@ func (u *vpuCtx) finish() []map[string]any {
 				"acked": h < acked, "signed": cp.signed,
 				"commit": cp.dump, "txid": cp.tx.TxHash().String(),
 				"outs": vpuOuts(cp.tx), "local": cp.local,
-				"hint": GetStateNumHint(cp.tx, obf)}
+				"hint": GetStateNumHint(cp.tx, obf),
+				"hint_raw": []uint64{vpuObfN(obf), uint64(cp.tx.LockTime),
+					uint64(vpuSeq0(cp.tx))}}
 			if h < acked {
 				r["revlog"] = u.revlogDump(victim, h, cp.tx)
 				vs := []map[string]any{
@@ -1062,6 +1072,284 @@ func (u *vpuCtx) finish() []map[string]any {
 }
 
 // ---------------------------------------------------------------------------
+// C04 layer 1: the state hint
+
+func vpuObfN(o [StateHintSize]byte) uint64 {
+	var b [8]byte
+	copy(b[2:], o[:])
+	return binary.BigEndian.Uint64(b[:])
+}
+
+func vpuSeq0(tx *wire.MsgTx) uint32 {
+	if len(tx.TxIn) == 0 {
+		return 0
+	}
+	return tx.TxIn[0].Sequence
+}
+
+// vpuHintProbe drives the REAL SetStateNumHint / GetStateNumHint at the
+// boundaries.  Entries: [obfuscator, height, #inputs, code, sequence, locktime,
+// GetStateNumHint]; code 0 ok, 1 "greater than max", 2 "exactly 1 input",
+// 3 other error / panic, 9 GetStateNumHint only.
+func vpuHintProbe(r *vrng) [][]uint64 {
+	var rows [][]uint64
+	obfs := [][StateHintSize]byte{{}, {0xff, 0xff, 0xff, 0xff, 0xff, 0xff},
+		{0, 0, 0, 0xff, 0xff, 0xff}, {0xff, 0xff, 0xff, 0, 0, 0},
+		{0x80, 0, 0, 0x80, 0, 0}, {0, 0, 1, 0, 0, 1}}
+	for i := 0; i < 6; i++ {
+		var o [StateHintSize]byte
+		copy(o[:], r.bytes(StateHintSize))
+		obfs = append(obfs, o)
+	}
+	fixed := []uint64{0, 1, 2, 1<<24 - 1, 1 << 24, 1<<24 + 1, 1<<32 - 1, 1 << 32,
+		1<<48 - 2, 1<<48 - 1, 1 << 48, 1<<48 + 1, 1 << 63, ^uint64(0)}
+	probe := func(obf [StateHintSize]byte, h uint64, nIn int) {
+		tx := wire.NewMsgTx(2)
+		for i := 0; i < nIn; i++ {
+			tx.AddTxIn(&wire.TxIn{Sequence: uint32(r.u64())})
+		}
+		tx.LockTime = uint32(r.u64())
+		var code, seq, lock, got uint64
+		e := vpuSafe(func() error { return SetStateNumHint(tx, h, obf) })
+		switch {
+		case e == "":
+			seq, lock = uint64(vpuSeq0(tx)), uint64(tx.LockTime)
+			got = GetStateNumHint(tx, obf)
+		case strings.Contains(e, "greater"):
+			code = 1
+		case strings.Contains(e, "exactly 1 input"):
+			code = 2
+		default:
+			code = 3
+		}
+		rows = append(rows, []uint64{vpuObfN(obf), h, uint64(nIn), code, seq,
+			lock, got})
+	}
+	for _, obf := range obfs {
+		for _, h := range fixed {
+			probe(obf, h, 1)
+		}
+		for i := 0; i < 6; i++ {
+			h := r.u64()
+			switch i % 3 {
+			case 0:
+				h &= 1<<48 - 1
+			case 1:
+				h &= 1<<26 - 1
+			}
+			probe(obf, h, 1)
+		}
+		probe(obf, r.u64()&(1<<48-1), 0)
+		probe(obf, r.u64()&(1<<48-1), 2)
+		probe(obf, 1<<48, 2) // check order: the height test comes first
+		// GetStateNumHint on arbitrary field values
+		for i := 0; i < 4; i++ {
+			tx := wire.NewMsgTx(2)
+			tx.AddTxIn(&wire.TxIn{Sequence: uint32(r.u64())})
+			tx.LockTime = uint32(r.u64())
+			if i == 0 {
+				tx.TxIn[0].Sequence, tx.LockTime = 0xffffffff, 0xffffffff
+			}
+			rows = append(rows, []uint64{vpuObfN(obf), 0, 1, 9,
+				uint64(tx.TxIn[0].Sequence), uint64(tx.LockTime),
+				GetStateNumHint(tx, obf)})
+		}
+	}
+	return rows
+}
+
+// ---------------------------------------------------------------------------
+// C05_htlc_sig_index: output order, HTLC <-> output <-> signature assignment
+
+// vpuSortObs is one commitment transaction (owner, height, txid) as seen by the
+// party that signs it for the owner (s: the signer's remote chain) and by the
+// owner itself (v: its local chain), plus the HTLC signatures of the commit_sig
+// as persisted by the signer (CommitDiff).
+type vpuSortObs struct {
+	owner    int
+	h        uint64
+	txid     string
+	s, v     map[string]any
+	nOn      int
+	sigs     []string
+	sigTried bool
+}
+
+// viewDump: the transaction outputs in order and both HTLC slices IN THE
+// ORDER OF THE VIEW (that is the order populateHtlcIndexes walks them), with
+// the output index populateHtlcIndexes assigned.
+func (u *vpuCtx) viewDump(cm *commitment, local bool) (map[string]any, int) {
+	nOn := 0
+	one := func(pds []paymentDescriptor) [][]any {
+		l := make([][]any, 0, len(pds))
+		for i := range pds {
+			pd := &pds[i]
+			oi, pk := pd.remoteOutputIndex, pd.theirPkScript
+			if local {
+				oi, pk = pd.localOutputIndex, pd.ourPkScript
+			}
+			if oi >= 0 {
+				nOn++
+			}
+			sig := ""
+			if local && pd.sig != nil {
+				if s, err := lnwire.NewSigFromSignature(pd.sig); err == nil {
+					sig = hex.EncodeToString(s.RawBytes())
+				}
+			}
+			l = append(l, []any{pd.HtlcIndex, u.c.hid(pd.RHash),
+				uint64(pd.Amount), pd.Timeout, oi, hex.EncodeToString(pk),
+				sig})
+		}
+		return l
+	}
+	outs := make([][]any, len(cm.txn.TxOut))
+	for i, o := range cm.txn.TxOut {
+		outs[i] = []any{o.Value, hex.EncodeToString(o.PkScript)}
+	}
+	d := map[string]any{"outs": outs, "out": one(cm.outgoingHTLCs),
+		"in": one(cm.incomingHTLCs), "at": len(u.c.steps)}
+	return d, nOn
+}
+
+func (u *vpuCtx) seeView(owner int, cm *commitment, local bool,
+	signer *LightningChannel) {
+
+	if cm == nil || cm.txn == nil || cm.height == 0 ||
+		len(cm.outgoingHTLCs)+len(cm.incomingHTLCs) < 2 {
+
+		return
+	}
+	key := fmt.Sprintf("%d/%d/%s", owner, cm.height, cm.txn.TxHash())
+	o := u.views[key]
+	if o == nil {
+		o = &vpuSortObs{owner: owner, h: cm.height,
+			txid: cm.txn.TxHash().String()}
+		u.views[key] = o
+		u.viewKeys = append(u.viewKeys, key)
+	}
+	if e := vpuSafe(func() error {
+		switch {
+		case local && o.v == nil:
+			o.v, o.nOn = u.viewDump(cm, true)
+		case !local && o.s == nil:
+			o.s, o.nOn = u.viewDump(cm, false)
+		}
+		return nil
+	}); e != "" {
+		u.gaps = append(u.gaps, "view "+key+": "+e)
+	}
+	if signer != nil && !o.sigTried {
+		o.sigTried = true
+		_ = vpuSafe(func() error {
+			diff, err := signer.channelState.RemoteCommitChainTip()
+			if err != nil || diff.CommitSig == nil ||
+				diff.Commitment.CommitHeight != cm.height {
+
+				return err
+			}
+			o.sigs = []string{}
+			for i := range diff.CommitSig.HtlcSigs {
+				o.sigs = append(o.sigs, hex.EncodeToString(
+					diff.CommitSig.HtlcSigs[i].RawBytes()))
+			}
+			return nil
+		})
+	}
+}
+
+func (u *vpuCtx) observeViews() {
+	c := u.c
+	for p := 0; p < 2; p++ {
+		lc := c.ch[p]
+		lch, rch := lc.commitChains.Local, lc.commitChains.Remote
+		u.seeView(p, lch.tail(), true, nil)
+		if lch.hasUnackedCommitment() {
+			u.seeView(p, lch.tip(), true, nil)
+		}
+		u.seeView(1-p, rch.tail(), false, nil)
+		if rch.hasUnackedCommitment() {
+			u.seeView(1-p, rch.tip(), false, lc)
+		}
+	}
+}
+
+func (u *vpuCtx) sortRows() []map[string]any {
+	rows := []map[string]any{}
+	for _, k := range u.viewKeys {
+		o := u.views[k]
+		if o.nOn < 2 || len(rows) >= 60 {
+			continue
+		}
+		r := map[string]any{"owner": vchNames[o.owner], "h": o.h,
+			"txid": o.txid, "s": o.s, "v": o.v, "sigs": nil}
+		if o.sigs != nil {
+			r["sigs"] = o.sigs
+		}
+		rows = append(rows, r)
+	}
+	return rows
+}
+
+// genDup adds an HTLC that collides with a live one of the same sender: an
+// exact duplicate (hash, amount, expiry), the same satoshi amount with other
+// millisatoshis, the same script with another expiry, or the same value with
+// another hash and another expiry (value tie, script and CLTV differ).
+func (u *vpuCtx) genDup() {
+	c := u.c
+	r := c.r
+	p := r.intn(2)
+	lc := c.ch[p]
+	var live, big []*paymentDescriptor
+	for e := lc.updateLogs.Local.Front(); e != nil; e = e.Next() {
+		pd := e.Value
+		if pd.EntryType != Add || c.hid(pd.RHash) < 0 {
+			continue
+		}
+		live = append(live, pd)
+		if pd.Amount >= 10_000_000 {
+			big = append(big, pd)
+		}
+	}
+	if len(big) > 0 && r.intn(4) != 0 {
+		live = big
+	}
+	if len(live) == 0 {
+		hid := c.nHash
+		c.nHash++
+		c.doAdd(p, lnwire.MilliSatoshi(r.rng(10_000_000, 300_000_000)),
+			uint32(100+r.intn(8)), hid, false)
+		u.nDupAdds++
+		return
+	}
+	pd := live[r.intn(len(live))]
+	amt, exp, hid := pd.Amount, pd.Timeout, c.hid(pd.RHash)
+	otherExp := func() uint32 {
+		e := uint32(100 + r.intn(8))
+		if e == exp {
+			e = exp + 1 + uint32(r.intn(3))
+		}
+		return e
+	}
+	switch x := r.intn(10); {
+	case x < 4: // exact duplicate
+	case x < 5: // same satoshis, other millisatoshis
+		amt = amt/1000*1000 + lnwire.MilliSatoshi(r.intn(1000))
+		if amt == 0 {
+			amt = 1
+		}
+	case x < 7: // same hash and amount, other expiry
+		exp = otherExp()
+	default: // same value, new hash, other expiry
+		hid = c.nHash
+		c.nHash++
+		exp = otherExp()
+	}
+	c.doAdd(p, amt, exp, hid, false)
+	u.nDupAdds++
+}
+
+// ---------------------------------------------------------------------------
 // schedule driver (the vch generators, with observation points in between)
 
 func (u *vpuCtx) after() {
@@ -1072,6 +1360,7 @@ func (u *vpuCtx) after() {
 	for p := 0; p < 2; p++ {
 		u.capture(p)
 	}
+	u.observeViews()
 	if len(u.samples) >= u.maxSamples {
 		return
 	}
@@ -1100,6 +1389,9 @@ func (u *vpuCtx) drain() {
 				progressed = true
 			}
 		}
+		if c.abort == "" {
+			u.observeViews()
+		}
 		for p := 0; p < 2 && c.abort == ""; p++ {
 			if c.hasLtip(p) {
 				u.capture(p)
@@ -1123,6 +1415,10 @@ func (u *vpuCtx) drain() {
 func (u *vpuCtx) run(maxSteps int) {
 	c := u.c
 	r := c.r
+	// 45 % of the schedules add directed duplicates of live HTLCs (exact
+	// duplicates, same-satoshi amounts, same script with another expiry,
+	// same value with another script and expiry)
+	u.dupMode = r.intn(100) < 45
 	u.after()
 	if c.cut && r.intn(5) == 0 {
 		c.genDanceCut(r.intn(3) / 2)
@@ -1131,6 +1427,8 @@ func (u *vpuCtx) run(maxSteps int) {
 	for len(c.steps) < maxSteps && c.abort == "" {
 		x := r.intn(1000)
 		switch {
+		case u.dupMode && x >= 400 && x < 490:
+			u.genDup()
 		case c.cut && x >= 300 && x < 340 && c.calm():
 			c.genDanceCut(r.intn(2))
 		case c.crash && x < 30:
@@ -1199,6 +1497,9 @@ func TestVerifPunish(t *testing.T) {
 		ncases = 0
 	}
 
+	// C04 layer 1: boundary probes of SetStateNumHint / GetStateNumHint
+	out.emit(map[string]any{"hint_probe": vpuHintProbe(master.fork(1 << 40))})
+
 	runCase := func(name string, ci int, sc *vchScript) {
 		t.Run(name, func(t *testing.T) {
 			r := master.fork(uint64(ci))
@@ -1240,7 +1541,8 @@ func TestVerifPunish(t *testing.T) {
 				noFee:      vEnvInt("VERIF_CHAN_FEE", 1) == 0,
 			}
 			u := &vpuCtx{c: c, maxSamples: maxSamples, noAmt: noAmt,
-				lastCap: [2]int64{-1, -1}}
+				lastCap: [2]int64{-1, -1},
+				views:   map[string]*vpuSortObs{}}
 			u.caps[0], u.caps[1] = map[uint64]*vpuCap{}, map[uint64]*vpuCap{}
 			steps := maxSteps
 			if r.intn(6) == 0 {
@@ -1277,6 +1579,9 @@ func TestVerifPunish(t *testing.T) {
 				}
 			}
 			row["revoked"] = u.finish()
+			row["sorts"] = u.sortRows()
+			row["dup_mode"] = u.dupMode
+			row["dup_adds"] = u.nDupAdds
 			row["samples"] = u.samples
 			row["gaps"] = u.gaps
 			row["steps"] = c.steps
